@@ -185,8 +185,9 @@ func runC11(w *vx.W) {
 		streams = append(streams, sBig, sChainBig, s8192)
 	}
 	streams = append(streams, s4096)
-	{
-	}
+	// a file of 80 KiB (what a decoder does differently once it has consumed 64 KiB): a sparse offset set
+	s140k := single("activity-datasize-81920", sizedActivity(hdr14(), 81920))
+	streams = append(streams, s140k)
 	kinds := []string{"cut", "fault", "fault-with-data", "fault-unexpected-eof", "fault-closed-pipe"}
 	var idx int64
 	for _, s := range streams {
@@ -211,11 +212,20 @@ func runC11(w *vx.W) {
 			fileIdEnd = pp.Recs[0].Offset + 1 + len(pp.Recs[0].Payload)
 		}
 		for off := 0; off <= len(s.B); off++ {
-			if len(s.B) > 2000 && off > 300 && off < len(s.B)-300 && off%97 != 0 && off%4096 > 2 && off%4096 < 4094 &&
+			if s.Name == s140k.Name {
+				// the offsets around every multiple of 32 KiB, every 1021st offset beyond 64 KiB, the last 40 offsets
+				near := off%32768 <= 2 || off%32768 >= 32766
+				if !(near || (off > 65536 && off%1021 == 0) || off >= len(s.B)-40) {
+					continue
+				}
+			} else if len(s.B) > 2000 && off > 300 && off < len(s.B)-300 && off%97 != 0 && off%4096 > 2 && off%4096 < 4094 &&
 				!((s.Name == sLongFields.Name || s.Name == sLongFieldsL.Name) && off > 3800 && off < 4600 && off%3 == 0) {
 				continue
 			}
 			for _, kind := range kinds {
+				if s.Name == s140k.Name && kind != "cut" && kind != "fault" {
+					continue
+				}
 				for _, ob := range []bool{false, true} {
 					for _, en := range c11Entries {
 						e := strings.TrimSuffix(en, "+options") // same obligations with and without decode options
